@@ -167,6 +167,8 @@ func TestVerifC19(t *testing.T) {
 		case 3:
 			if c.Index%16 == 3 {
 				c19HostileValues(c) // see c19hostile_test.go
+			} else if c.Index%64 == 11 {
+				c19CaseValues(c) // member names inside protocol values, differing only in letter case
 			} else {
 				c19Hostile(c)
 			}
